@@ -17,6 +17,7 @@ func main() {
 		"c14":   c14,
 		"c10":   c10,
 		"c17":   c17,
+		"c02":   c02,
 	})
 }
 
